@@ -192,6 +192,11 @@ func (r *RegistryImpl) Begin(ctx context.Context, engine interface{}, readOnly b
 	}
 	resultCh := make(chan txResult, 1)
 
+	// Protects the hand-over of the new transaction between the goroutine
+	// below and this function when the timeout fires
+	var handover sync.Mutex
+	abandoned := false
+
 	// Start transaction in a goroutine
 	go func() {
 		var tx Transaction
@@ -230,15 +235,20 @@ func (r *RegistryImpl) Begin(ctx context.Context, engine interface{}, readOnly b
 			err = fmt.Errorf("nil engine provided to transaction registry")
 		}
 
-		select {
-		case resultCh <- txResult{tx, err}:
-			// Successfully sent result
-		case <-timeoutCtx.Done():
-			// Context timed out, but try to rollback if we got a transaction
+		// Hand the transaction over, or roll it back if the caller gave up.
+		// Exactly one side must end up owning it: a plain select between
+		// the send and the timeout can pick the send after the caller has
+		// already returned, which parks a transaction - and the lock it
+		// holds - in a channel nobody reads.
+		handover.Lock()
+		defer handover.Unlock()
+		if abandoned {
 			if tx != nil {
 				tx.Rollback()
 			}
+			return
 		}
+		resultCh <- txResult{tx, err} // buffered: never blocks
 	}()
 
 	// Wait for result or timeout
@@ -268,6 +278,18 @@ func (r *RegistryImpl) Begin(ctx context.Context, engine interface{}, readOnly b
 		return txID, nil
 
 	case <-timeoutCtx.Done():
+		// Give up: from now on the goroutine rolls back what it obtains, and a
+		// transaction it handed over before this point is ours to roll back
+		handover.Lock()
+		abandoned = true
+		handover.Unlock()
+		select {
+		case result := <-resultCh:
+			if result.tx != nil {
+				result.tx.Rollback()
+			}
+		default:
+		}
 		return "", fmt.Errorf("transaction creation timed out: %w", timeoutCtx.Err())
 	}
 }
